@@ -624,3 +624,16 @@ Lemma third_law_boundary_refuted :
   let r : grid := fun a _ _ => if (a <? 2)%nat then 1 else 0 in
   ~ sum3 3 1 1 (fun i j k => r i j k * field (3, 1, 1)%nat (1, 1, 1) 1 0 (potential (3, 1, 1)%nat 1 G r) i j k) == 0.
 Proof. vm_compute. discriminate. Qed.
+
+(* ------------------------------------------------------------------ the layout of the doubled Green array in closed form *)
+Lemma green3_layout : forall nx ny nz (G : grid) a b c,
+  green3 (nx, ny, nz) G a b c =
+  if ((a =? nx) || (b =? ny) || (c =? nz))%nat then 0
+  else G (if (a <? nx)%nat then a else (2 * nx - a)%nat) (if (b <? ny)%nat then b else (2 * ny - b)%nat)
+         (if (c <? nz)%nat then c else (2 * nz - c)%nat).
+Proof.
+  intros. unfold green3, fold1.
+  destruct (Nat.ltb_spec a nx); destruct (Nat.eqb_spec a nx); try lia;
+  destruct (Nat.ltb_spec b ny); destruct (Nat.eqb_spec b ny); try lia;
+  destruct (Nat.ltb_spec c nz); destruct (Nat.eqb_spec c nz); try lia; reflexivity.
+Qed.
